@@ -57,6 +57,49 @@ for _k, _K in KINDS.items():
             except Exception as _e:
                 ERR.append((_k, _rn, _s, repr(_e)[:200]))
 
+# second logical model: a default factory without a literal form between other fields
+def make_tags(): return ["new"]
+@dataclasses.dataclass
+class FDc:
+    id: int
+    tags: list = dataclasses.field(default_factory=make_tags)
+    level: int = 1
+    extra: set = dataclasses.field(default_factory=set)
+    last: int = 2
+@attr.s(auto_attribs=True)
+class FAt:
+    id: int
+    tags: list = attr.Factory(make_tags)
+    level: int = 1
+    extra: set = attr.Factory(set)
+    last: int = 2
+class FPy(pydantic.BaseModel):
+    id: int
+    tags: list = pydantic.Field(default_factory=make_tags)
+    level: int = 1
+    extra: set = pydantic.Field(default_factory=set)
+    last: int = 2
+FKINDS = {"dataclass": FDc, "attrs": FAt, "pydantic": FPy}
+FLD = {(k, s): Retort(strict_coercion=s).get_loader(K) for k, K in FKINDS.items() for s in (True, False)}
+def factory_model(pt, pl, pe, pa, i, lv, la, real):
+    """fields after a factory-defaulted field keep their slot in every kind"""
+    for strict in (True, False):
+        base = None
+        for k in (("dataclass", "attrs", "pydantic") if real else ("dataclass", "attrs")):
+            d = {"id": i}
+            if pt: d["tags"] = ["t"]
+            if pl: d["level"] = lv
+            if pe: d["extra"] = [5]
+            if pa: d["last"] = la
+            if real: d = realize(d)
+            o = outcome(FLD[(k, strict)], d)
+            if o[0] != "ok": return False
+            obj = o[2]
+            view = (obj.id, obj.tags, obj.level, obj.extra, obj.last)
+            exp = (i, ["t"] if pt else ["new"], lv if pl else 1, {5} if pe else set(), la if pa else 2)
+            if view != exp: return False
+    return True
+
 def fields_of(kind, obj):
     """field-wise view of an object of any kind (absent optional TypedDict keys and SQLAlchemy column defaults count as the default)"""
     if kind == "typeddict":
@@ -191,6 +234,11 @@ def build(tier, seed):
              f"return kinds_dump_ext({rn!r}, {dump_kinds[rn]}, a, b, isnone, n)",
              pre=["0 <= a <= 2 and 0 <= b <= 2 and 0 <= n <= 2"], timeout=tmo, family="dumpers of all kinds agree (pooled values: pydantic / SQLAlchemy constructors are compiled code)",
              bounds="field values from 3-value pools incl. the defaults")
+    m.ob("factory_model", "pt: bool, pl: bool, pe: bool, pa: bool, i: int, lv: int, la: int", "return factory_model(pt, pl, pe, pa, i, lv, la, False)",
+         timeout=tmo, family="second logical model (non-literal default factories between fields): dataclass vs attrs",
+         bounds="all 16 presence subsets, symbolic int values, strict and lax")
+    m.ob("factory_model_ext", "pt: bool, pl: bool, pe: bool, pa: bool", "return factory_model(pt, pl, pe, pa, 3, 4, 5, True)",
+         timeout=tmo, family="second logical model incl. pydantic (realised data)", bounds="all 16 presence subsets")
     m.ob("convert", "a: int, b: str, isnone: bool, n: int", "return kinds_convert(a, b, isnone, n)", pre=["len(b) <= 1"], timeout=tmo,
          family="converters between any two pure-Python kinds copy every field", bounds="16 ordered kind pairs, symbolic field values")
     m.ob("convert_ext", "a: int, b: int, isnone: bool, n: int", "return kinds_convert_ext(a, b, isnone, n)",
